@@ -103,7 +103,14 @@ def handleKDE (ins outs : List J) : Verdict :=
       -- queries are sent ascending: CDF must be non-decreasing
       let mono := (gc.zip (gc.drop 1)).all fun (a, b) => match a, b with | .fin p, .fin q => decide (p ≤ q + 1 / 1000000000000) | _, _ => false
       let pdfOk := k == .delta || (qs.zip gp).all fun (x, g) => inTol g (pdfM x)
-      let cdfOk := (qs.zip gc).all fun (x, g) => inTol g (cdfM x)
+      -- without boundaries the CDF is an average of kernel CDFs (non-negative terms): in the lower half it is
+      -- held to its own size (1e-9 relative), however small
+      let inTolRel (g : V) (e : I) : Bool :=
+        match g with
+        | .fin v => let t := 1 / pow2 1000 + (1 / 1000000000) * ratMax (ratAbs e.lo) (ratAbs e.hi); decide (e.lo - t ≤ v ∧ v ≤ e.hi + t)
+        | _ => false
+      let relCDF := (match b with | .none => true | _ => false) && k == .gauss
+      let cdfOk := (qs.zip gc).all fun (x, g) => let e := cdfM x; if relCDF && e.hi < 1 / 2 then inTolRel g e else inTol g e
       let firstBad : String := match (qs.zip (gp.zip gc)).find? (fun (x, g, c) => !(k == .delta || inTol g (pdfM x)) || !inTol c (cdfM x)) with
         | some (x, g, c) => s!"x={ratStr x} pdf go={g.str} model=[{ratStr (pdfM x).lo},{ratStr (pdfM x).hi}] cdf go={c.str} model=[{ratStr (cdfM x).lo},{ratStr (cdfM x).hi}]"
         | none => ""
